@@ -355,7 +355,8 @@ theorem Sess.evict_eq (s : Sess) (ps : List Str) :
     the fresh parse of its module's source -/
 def TS (S : Sem) (w0 : World) (s : Sess) : Prop :=
   TInv S s.w ∧ s.w.srcs = w0.srcs ∧ s.w.grammarMtime = w0.grammarMtime ∧
-    ∀ k t, (k, t) ∈ s.trees → ∃ sf, w0.srcs.get? k = some sf ∧ t = S.parse sf.data
+    (∀ k t, (k, t) ∈ s.trees → ∃ sf, w0.srcs.get? k = some sf ∧ t = S.parse sf.data) ∧
+    (∀ k i, (k, i) ∈ s.ids → '-' ∉ i)
 
 theorem TS.fail {S : Sem} {w0 : World} {s : Sess} (h : TS S w0 s) (e : Err) : TS S w0 (s.fail e) := h
 theorem TS.ev {S : Sem} {w0 : World} {s : Sess} (h : TS S w0 s) (k : Char) (p : Str) : TS S w0 (s.ev k p) := h
@@ -433,8 +434,8 @@ def FreshTree (S : Sem) (w0 : World) (key tree : Str) : Prop := ∃ sf, w0.srcs.
 
 theorem TS.addTree {S : Sem} {w0 : World} {s : Sess} (h : TS S w0 s) {key tree : Str} (hF : FreshTree S w0 key tree) :
     TS S w0 { s with loaded := s.loaded ++ [key], trees := s.trees ++ [(key, tree)] } := by
-  obtain ⟨h1, h2, h3, h4⟩ := h
-  refine ⟨h1, h2, h3, ?_⟩
+  obtain ⟨h1, h2, h3, h4, h5⟩ := h
+  refine ⟨h1, h2, h3, ?_, h5⟩
   intro k t hkt
   simp only [List.mem_append, List.mem_singleton, Prod.mk.injEq] at hkt
   rcases hkt with hkt | ⟨rfl, rfl⟩
@@ -494,32 +495,117 @@ theorem treeGet_TS {S : Sem} (H : Hyp S) {w0 : World} {s : Sess} (h : TS S w0 s)
           exact hfull src hsrc rfl rfl
       exact ⟨hF, h2.addTree hF⟩
 
-theorem preprocess_TS {S : Sem} (H : Hyp S) {w0 : World} {s : Sess} (h : TS S w0 s) (key tree : Str) (views : List Str)
-    {s' : Sess} {r : Option Str} (heq : preprocess S s key tree views = (s', r)) :
+theorem lookup_mem' {α : Type} [BEq α] [LawfulBEq α] {β : Type} {k : α} {v : β} : ∀ {l : List (α × β)}, List.lookup k l = some v → (k, v) ∈ l
+  | [], h => by simp [List.lookup] at h
+  | (k', v') :: l, h => by
+    simp only [List.lookup] at h
+    split at h
+    · rename_i hk
+      have : k = k' := by simpa using hk
+      cases h; subst this; simp
+    · exact List.mem_cons_of_mem _ (lookup_mem' h)
+
+/-- the identity functions touch nothing but the identity memo, and every digest they produce or cache is dash-free -/
+def IdsNoDash (ids : List (Str × Str)) : Prop := ∀ k i, (k, i) ∈ ids → '-' ∉ i
+
+theorem IdsNoDash.add {ids : List (Str × Str)} (h : IdsNoDash ids) (k i : Str) (hi : '-' ∉ i) : IdsNoDash (ids ++ [(k, i)]) := by
+  intro k' i' hm
+  simp only [List.mem_append, List.mem_singleton, Prod.mk.injEq] at hm
+  rcases hm with hm | ⟨_, rfl⟩
+  · exact h k' i' hm
+  · exact hi
+
+theorem depIdentity_frame {S : Sem} (H : Hyp S) (s : Sess) (d : Str) (hn : IdsNoDash s.ids) :
+    ∃ ids', (depIdentity S s d).1 = { s with ids := ids' } ∧ IdsNoDash ids' ∧ ∀ i, (depIdentity S s d).2 = some i → '-' ∉ i := by
+  unfold depIdentity
+  split
+  · rename_i i hl
+    exact ⟨s.ids, rfl, hn, fun i' h => by cases h; exact hn d i (lookup_mem' hl)⟩
+  · split
+    · split
+      · exact ⟨_, rfl, hn.add _ _ (H.identL_nodash _), fun i' h => by cases h; exact H.identL_nodash _⟩
+      · exact ⟨s.ids, rfl, hn, fun _ h => by simp at h⟩
+    · exact ⟨s.ids, rfl, hn, fun _ h => by simp at h⟩
+
+theorem depIdentities_frame {S : Sem} (H : Hyp S) (s : Sess) (ds : List Str) (hn : IdsNoDash s.ids) :
+    ∃ ids', (depIdentities S s ds).1 = { s with ids := ids' } ∧ IdsNoDash ids' := by
+  induction ds generalizing s with
+  | nil => exact ⟨s.ids, rfl, hn⟩
+  | cons d ds ih =>
+    unfold depIdentities
+    obtain ⟨i1, h1, hn1, _⟩ := depIdentity_frame H s d hn
+    generalize depIdentity S s d = r at h1
+    obtain ⟨s1, o⟩ := r
+    dsimp only at h1 ⊢
+    subst h1
+    cases o with
+    | none => exact ⟨i1, rfl, hn1⟩
+    | some i =>
+      dsimp only
+      obtain ⟨i2, h2, hn2⟩ := ih { s with ids := i1 } hn1
+      generalize depIdentities S { s with ids := i1 } ds = r2 at h2
+      obtain ⟨s2, o2⟩ := r2
+      dsimp only at h2 ⊢
+      subst h2
+      cases o2 <;> exact ⟨i2, rfl, hn2⟩
+
+theorem identityM_frame {S : Sem} (H : Hyp S) (s : Sess) (key tree : Str) (hn : IdsNoDash s.ids) :
+    ∃ ids', (identityM S s key tree).1 = { s with ids := ids' } ∧ IdsNoDash ids' ∧ ∀ i, (identityM S s key tree).2 = some i → '-' ∉ i := by
+  unfold identityM
+  split
+  · rename_i i hl
+    exact ⟨s.ids, rfl, hn, fun i' h => by cases h; exact hn key i (lookup_mem' hl)⟩
+  · split
+    · exact ⟨s.ids, rfl, hn, fun _ h => by simp at h⟩
+    · obtain ⟨i1, h1, hn1⟩ := depIdentities_frame H s (S.importsOf tree) hn
+      generalize depIdentities S s (S.importsOf tree) = r at h1
+      obtain ⟨s1, o⟩ := r
+      dsimp only at h1 ⊢
+      subst h1
+      cases o with
+      | none => exact ⟨i1, rfl, hn1, fun _ h => by simp at h⟩
+      | some is => exact ⟨_, rfl, hn1.add _ _ (H.identL_nodash _), fun i' h => by cases h; exact H.identL_nodash _⟩
+
+theorem preprocessWith_TS {S : Sem} (H : Hyp S) {w0 : World} {s : Sess} (h : TS S w0 s) (key tree : Str) (views : List Str)
+    (ident : Str) (hident : '-' ∉ ident) {s' : Sess} {r : Option Str} (heq : preprocessWith S s key tree views ident = (s', r)) :
     TS S w0 s' ∧ ∀ table, r = some table → TS S w0 { s' with db := s'.db ++ [(key, table)] } := by
   have aux : ∀ s'', TS S w0 s'' → TS S w0 s'' ∧ ∀ table : Str, r = some table → TS S w0 { s'' with db := s''.db ++ [(key, table)] } :=
     fun s'' h'' => ⟨h'', fun _ _ => h''⟩
-  unfold preprocess at heq
+  unfold preprocessWith at heq
+  dsimp only at heq
   split at heq
-  · cases heq; exact aux _ (h.fail _)
-  · rename_i ident hid
+  · split at heq
+    · split at heq
+      · cases heq; exact aux _ h
+      · cases heq; exact aux _ h
+    · cases heq; exact aux _ h
+  · split at heq
+    · cases heq; exact aux _ h
+    · cases heq
+      apply aux
+      exact TS.write (TS.evict h _) _ _ _ (fun w m hw _ _ => hw.put_other _ _ (fun k g t hk =>
+        cachePath_ne_symPath hk.1 (H.tree_nodash g t) hident jsonExt_nodash))
+
+theorem TS.setIds {S : Sem} {w0 : World} {s : Sess} (h : TS S w0 s) (ids' : List (Str × Str)) (hn : IdsNoDash ids') :
+    TS S w0 { s with ids := ids' } := ⟨h.1, h.2.1, h.2.2.1, h.2.2.2.1, hn⟩
+
+theorem preprocess_TS {S : Sem} (H : Hyp S) {w0 : World} {s : Sess} (h : TS S w0 s) (key tree : Str) (views : List Str)
+    {s' : Sess} {r : Option Str} (heq : preprocess S s key tree views = (s', r)) :
+    TS S w0 s' ∧ ∀ table, r = some table → TS S w0 { s' with db := s'.db ++ [(key, table)] } := by
+  unfold preprocess at heq
+  obtain ⟨ids', hf, hn, hd⟩ := identityM_frame H s key tree h.2.2.2.2
+  generalize identityM S s key tree = ri at heq hf hd
+  obtain ⟨s1, o⟩ := ri
+  dsimp only at hf hd heq
+  subst hf
+  cases o with
+  | none =>
     dsimp only at heq
-    split at heq
-    · split at heq
-      · split at heq
-        · cases heq; exact aux _ h
-        · cases heq; exact aux _ h
-      · cases heq; exact aux _ h
-    · split at heq
-      · cases heq; exact aux _ h
-      · cases heq
-        apply aux
-        unfold identity at hid
-        split at hid
-        · rename_i own hs _ _
-          cases hid
-          exact TS.write (TS.evict h _) _ _ _ (fun w m hw _ _ => hw.put_other _ _ (fun k g t hk => treePath_ne_symPath H hk))
-        · simp at hid
+    cases heq
+    exact ⟨h.setIds ids' hn, fun _ hr => by simp at hr⟩
+  | some ident =>
+    dsimp only at heq
+    exact preprocessWith_TS H (h.setIds ids' hn) key tree views ident (hd ident rfl) heq
 
 end Tranp.CacheFS
 
@@ -555,7 +641,7 @@ theorem runTargets_TS {S : Sem} (H : Hyp S) {w0 : World} (targets : List Str) (s
 
 theorem run_TS {S : Sem} (H : Hyp S) (w : World) (force : Bool) (h : TInv S w) : TS S w (run S w force) := by
   unfold run
-  exact runTargets_TS H _ _ ⟨h, rfl, rfl, fun _ _ hkt => by simp at hkt⟩
+  exact runTargets_TS H _ _ ⟨h, rfl, rfl, fun _ _ hkt => by simp at hkt, fun _ _ hki => by simp at hki⟩
 
 /-- the ops of a history that create files name module keys -/
 def OpOK : Op → Prop
@@ -596,49 +682,130 @@ end Tranp.CacheFS
 namespace Tranp.CacheFS
 open Tranp
 
-/-! ### the symbol cache when inferred symbols depend on direct imports only -/
+/-! ### the closure-keyed identity and the cache-free symbols, as relations over the sources -/
 
-/-- What a dependant sees of a module's symbol table is a function `loc` of that module's own tree:
-    "inferred symbols depend on direct imports only". -/
-def DirectOnly (S : Sem) (loc : Str → Str → Str) : Prop := ∀ k tree vs, S.view (S.analyse k tree vs) = loc k tree
+mutual
+  /-- `IsId S srcs k i`: `i` is the identity of module `k` — the digest of the identities of its direct imports and of the
+      hash of its own file — computed from the sources alone (exists iff the import closure is finite and acyclic) -/
+  inductive IsId (S : Sem) (srcs : Dir) : Str → Str → Prop
+    | mk {k : Str} {own : File} {is : List Str} (hown : srcs.get? k = some own)
+        (hdeps : IsIds S srcs (S.importsOf (S.parse own.data)) is) : IsId S srcs k (S.identL (is ++ [S.hash own.data]))
+  inductive IsIds (S : Sem) (srcs : Dir) : List Str → List Str → Prop
+    | nil : IsIds S srcs [] []
+    | cons {d i : Str} {ds is : List Str} (hd : IsId S srcs d i) (hds : IsIds S srcs ds is) : IsIds S srcs (d :: ds) (i :: is)
+end
 
-/-- views of the direct imports computed from their sources -/
-def locViews (S : Sem) (loc : Str → Str → Str) (ims ds : List Str) : List Str :=
-  List.zipWith (fun d src => loc d (S.parse src)) ims ds
+mutual
+  /-- `IsTab S srcs k t`: `t` is the symbol table of module `k` analysed without any cache -/
+  inductive IsTab (S : Sem) (srcs : Dir) : Str → Str → Prop
+    | mk {k : Str} {own : File} {vs : List Str} (hown : srcs.get? k = some own)
+        (hdeps : IsViews S srcs (S.importsOf (S.parse own.data)) vs) : IsTab S srcs k (S.analyse k (S.parse own.data) vs)
+  inductive IsViews (S : Sem) (srcs : Dir) : List Str → List Str → Prop
+    | nil : IsViews S srcs [] []
+    | cons {d t : Str} {ds vs : List Str} (hd : IsTab S srcs d t) (hds : IsViews S srcs ds vs) : IsViews S srcs (d :: ds) (S.view t :: vs)
+end
 
-/-- the symbol table of a module computed without any cache, from its own source and the sources of its direct imports -/
-def pureTable (S : Sem) (loc : Str → Str → Str) (w : World) (k : Str) : Str :=
-  match w.srcs.get? k with
-  | none => []
-  | some own =>
-    S.analyse k (S.parse own.data)
-      ((S.importsOf (S.parse own.data)).filterMap (fun d => (w.srcs.get? d).map (fun sd => loc d (S.parse sd.data))))
+theorem IsId.inv {S : Sem} {srcs : Dir} {k i : Str} (h : IsId S srcs k i) :
+    ∃ own is, srcs.get? k = some own ∧ IsIds S srcs (S.importsOf (S.parse own.data)) is ∧ i = S.identL (is ++ [S.hash own.data]) := by
+  cases h with
+  | mk hown hdeps => exact ⟨_, _, hown, hdeps, rfl⟩
 
-/-- Coherence of the symbol files: the content of `<key>-symbols-<ident>.json` is (a prefix of) the table determined by
-    the sources that `ident` is the digest of. Independent of the current sources. -/
-def SInv (S : Sem) (loc : Str → Str → Str) (w : World) : Prop :=
+theorem IsTab.inv {S : Sem} {srcs : Dir} {k t : Str} (h : IsTab S srcs k t) :
+    ∃ own vs, srcs.get? k = some own ∧ IsViews S srcs (S.importsOf (S.parse own.data)) vs ∧ t = S.analyse k (S.parse own.data) vs := by
+  cases h with
+  | mk hown hdeps => exact ⟨_, _, hown, hdeps, rfl⟩
+
+theorem IsIds.inv_cons {S : Sem} {srcs : Dir} {d : Str} {ds is : List Str} (h : IsIds S srcs (d :: ds) is) :
+    ∃ i is', is = i :: is' ∧ IsId S srcs d i ∧ IsIds S srcs ds is' := by
+  cases h with
+  | cons hd hds => exact ⟨_, _, rfl, hd, hds⟩
+
+theorem IsViews.inv_cons {S : Sem} {srcs : Dir} {d : Str} {ds vs : List Str} (h : IsViews S srcs (d :: ds) vs) :
+    ∃ t vs', vs = S.view t :: vs' ∧ IsTab S srcs d t ∧ IsViews S srcs ds vs' := by
+  cases h with
+  | cons hd hds => exact ⟨_, _, rfl, hd, hds⟩
+
+theorem IsViews.inv_nil {S : Sem} {srcs : Dir} {vs : List Str} (h : IsViews S srcs [] vs) : vs = [] := by
+  cases h; rfl
+
+/-- Key coverage of the closure-keyed identity: two source states that give a module the same identity give it the same
+    cache-free symbol table (md5 injective). -/
+theorem id_covers {S : Sem} (H : Hyp S) {srcs srcs' : Dir} {k i : Str} (h : IsId S srcs k i) :
+    ∀ t t', IsId S srcs' k i → IsTab S srcs k t → IsTab S srcs' k t' → t = t' := by
+  refine @IsId.rec S srcs
+    (fun k i _ => ∀ t t', IsId S srcs' k i → IsTab S srcs k t → IsTab S srcs' k t' → t = t')
+    (fun ds is _ => ∀ vs vs', IsIds S srcs' ds is → IsViews S srcs ds vs → IsViews S srcs' ds vs' → vs = vs')
+    ?mk ?nil ?cons k i h
+  case mk =>
+    intro k own is hown hdeps ih t t' h2 ht ht'
+    obtain ⟨own', is', hown', hdeps', hi⟩ := h2.inv
+    obtain ⟨o1, vs, ho1, hv, rfl⟩ := ht.inv
+    obtain ⟨o2, vs', ho2, hv', rfl⟩ := ht'.inv
+    rw [hown] at ho1; cases ho1
+    rw [hown'] at ho2; cases ho2
+    have h1 := H.identL_inj _ _ hi
+    obtain ⟨e1, e2⟩ := List.append_inj' h1 rfl
+    have ed : own.data = own'.data := H.hash_inj _ _ (by simpa using e2)
+    subst e1
+    rw [← ed] at hdeps' hv' ⊢
+    rw [ih vs vs' hdeps' hv hv']
+  case nil =>
+    intro vs vs' _ hv hv'
+    rw [hv.inv_nil, hv'.inv_nil]
+  case cons =>
+    intro d i ds is hd hds ih1 ih2 vs vs' h2 hv hv'
+    obtain ⟨i', is', e, hd', hds'⟩ := h2.inv_cons
+    cases e
+    obtain ⟨t, vs1, rfl, ht, hvs⟩ := hv.inv_cons
+    obtain ⟨t', vs1', rfl, ht', hvs'⟩ := hv'.inv_cons
+    rw [ih1 t t' hd' ht ht', ih2 vs1 vs1' hds' hvs hvs']
+
+/-- the cache-free symbol table is unique -/
+theorem tab_det {S : Sem} {srcs : Dir} {k t : Str} (h : IsTab S srcs k t) : ∀ t', IsTab S srcs k t' → t = t' := by
+  refine @IsTab.rec S srcs
+    (fun k t _ => ∀ t', IsTab S srcs k t' → t = t')
+    (fun ds vs _ => ∀ vs', IsViews S srcs ds vs' → vs = vs')
+    ?mk ?nil ?cons k t h
+  case mk =>
+    intro k own vs hown hdeps ih t' ht'
+    obtain ⟨o2, vs', ho2, hv', rfl⟩ := ht'.inv
+    rw [hown] at ho2; cases ho2
+    rw [ih vs' hv']
+  case nil =>
+    intro vs' hv'
+    rw [hv'.inv_nil]
+  case cons =>
+    intro d t ds vs hd hds ih1 ih2 vs' hv'
+    obtain ⟨t', vs1', rfl, ht', hvs'⟩ := hv'.inv_cons
+    rw [ih1 t' ht', ih2 vs1' hvs']
+
+end Tranp.CacheFS
+
+namespace Tranp.CacheFS
+open Tranp
+
+/-! ### coherence of the symbol files under the closure-keyed identity -/
+
+/-- The content of `<key>-symbols-<ident>.json` is (a prefix of) the cache-free table of `key` for every source state in
+    which `key` has the identity `ident`. Does not mention the current sources, hence stable under edits. -/
+def SInv (S : Sem) (w : World) : Prop :=
   ∀ k ident f, '-' ∉ ident → w.cache.get? (symPath k ident) = some f →
-    ∃ full, f.data <+: full ∧ S.valid full = true ∧
-      ∀ own ds, ident = S.identL (ds.map S.hash ++ [S.hash own]) →
-        full = S.analyse k (S.parse own) (locViews S loc (S.importsOf (S.parse own)) ds)
+    ∃ full, f.data <+: full ∧ S.valid full = true ∧ ∀ (srcs : Dir) t, IsId S srcs k ident → IsTab S srcs k t → full = t
 
-theorem SInv.erase {S : Sem} {loc : Str → Str → Str} {w : World} (h : SInv S loc w) (p : Str) :
-    SInv S loc { w with cache := w.cache.erase p } := by
+theorem SInv.erase {S : Sem} {w : World} (h : SInv S w) (p : Str) : SInv S { w with cache := w.cache.erase p } := by
   intro k ident f hi hget
   simp only [Dir.get?_erase] at hget
   split at hget
   · simp at hget
   · exact h k ident f hi hget
 
-theorem SInv.eraseAll {S : Sem} {loc : Str → Str → Str} {w : World} (h : SInv S loc w) (ps : List Str) :
-    SInv S loc { w with cache := ps.foldl Dir.erase w.cache } := by
+theorem SInv.eraseAll {S : Sem} {w : World} (h : SInv S w) (ps : List Str) : SInv S { w with cache := ps.foldl Dir.erase w.cache } := by
   induction ps generalizing w with
   | nil => exact h
   | cons p ps ih => exact ih (h.erase p)
 
-theorem SInv.put_other {S : Sem} {loc : Str → Str → Str} {w : World} (h : SInv S loc w) (p : Str) (f : File) (c : Nat)
-    (hp : ∀ k ident, '-' ∉ ident → symPath k ident ≠ p) :
-    SInv S loc { w with cache := w.cache.put p f, clock := c } := by
+theorem SInv.put_other {S : Sem} {w : World} (h : SInv S w) (p : Str) (f : File) (c : Nat)
+    (hp : ∀ k ident, '-' ∉ ident → symPath k ident ≠ p) : SInv S { w with cache := w.cache.put p f, clock := c } := by
   intro k ident f' hi hget
   simp only at hget
   rw [Dir.get?_put_ne _ _ _ _ (hp k ident hi)] at hget
@@ -647,22 +814,20 @@ theorem SInv.put_other {S : Sem} {loc : Str → Str → Str} {w : World} (h : SI
 theorem symPath_ne_cachePath {k ident key i e : Str} (hi : '-' ∉ ident) (hi' : '-' ∉ i) (he : '-' ∉ e) (hk : '-' ∉ key) :
     symPath k ident ≠ cachePath key i e := fun h => cachePath_ne_symPath hk hi' hi he h.symm
 
-theorem SInv.put_sym {S : Sem} (H : Hyp S) {loc : Str → Str → Str} {w : World} (h : SInv S loc w) (key : Str) (hs : List Str) (table : Str)
-    (m c : Nat) (hv : S.valid table = true)
-    (ht : ∀ own ds, S.identL hs = S.identL (ds.map S.hash ++ [S.hash own]) →
-      table = S.analyse key (S.parse own) (locViews S loc (S.importsOf (S.parse own)) ds)) :
-    SInv S loc { w with cache := w.cache.put (symPath key (S.identL hs)) ⟨table, m⟩, clock := c } := by
-  intro k ident f hi hget
+theorem SInv.put_sym {S : Sem} (H : Hyp S) {w : World} (h : SInv S w) (key ident table : Str) (m c : Nat) (hid : '-' ∉ ident)
+    (hv : S.valid table = true) (srcs0 : Dir) (hI : IsId S srcs0 key ident) (hT : IsTab S srcs0 key table) :
+    SInv S { w with cache := w.cache.put (symPath key ident) ⟨table, m⟩, clock := c } := by
+  intro k ident' f hi hget
   simp only at hget
-  by_cases hp : symPath k ident = symPath key (S.identL hs)
-  · obtain ⟨rfl, rfl⟩ := symPath_inj hi (H.identL_nodash hs) hp
+  by_cases hp : symPath k ident' = symPath key ident
+  · obtain ⟨rfl, rfl⟩ := symPath_inj hi hid hp
     rw [Dir.get?_put_eq] at hget; cases hget
-    exact ⟨table, List.prefix_refl _, hv, ht⟩
+    exact ⟨table, List.prefix_refl _, hv, fun srcs t hI' hT' => id_covers H hI table t hI' hT hT'⟩
   · rw [Dir.get?_put_ne _ _ _ _ hp] at hget
-    exact h k ident f hi hget
+    exact h k ident' f hi hget
 
-theorem SInv.trunc {S : Sem} {loc : Str → Str → Str} {w : World} (h : SInv S loc w) (p : Str) (f : File) (hf : w.cache.get? p = some f) (n : Nat) :
-    SInv S loc { w with cache := w.cache.put p (truncFile f n) } := by
+theorem SInv.trunc {S : Sem} {w : World} (h : SInv S w) (p : Str) (f : File) (hf : w.cache.get? p = some f) (n : Nat) :
+    SInv S { w with cache := w.cache.put p (truncFile f n) } := by
   intro k ident f' hi hget
   simp only at hget
   by_cases hp : symPath k ident = p
@@ -673,82 +838,32 @@ theorem SInv.trunc {S : Sem} {loc : Str → Str → Str} {w : World} (h : SInv S
   · rw [Dir.get?_put_ne _ _ _ _ hp] at hget
     exact h k ident f' hi hget
 
-/-- pointwise relation between the imports and their source texts -/
-inductive SrcsOf (w : World) : List Str → List Str → Prop
-  | nil : SrcsOf w [] []
-  | cons {d src : Str} {ims ds : List Str} (f : File) (hf : w.srcs.get? d = some f) (hd : f.data = src) (rest : SrcsOf w ims ds) :
-      SrcsOf w (d :: ims) (src :: ds)
+/-- every cached identity of the session is the closure-keyed identity of its module -/
+def IdsOK (S : Sem) (w0 : World) (s : Sess) : Prop := ∀ k i, (k, i) ∈ s.ids → IsId S w0.srcs k i
 
-theorem map_inj {α β : Type} (g : α → β) (hg : ∀ a b, g a = g b → a = b) : ∀ (xs ys : List α), xs.map g = ys.map g → xs = ys
-  | [], [], _ => rfl
-  | [], _ :: _, h => by simp at h
-  | _ :: _, [], h => by simp at h
-  | x :: xs, y :: ys, h => by
-    simp only [List.map_cons, List.cons.injEq] at h
-    rw [hg x y h.1, map_inj g hg xs ys h.2]
-
-/-- `hashes` succeeds exactly when every import has a file; the digests are those of the files' contents -/
-theorem hashes_some {S : Sem} {w : World} {ims : List Str} {hs : List Str} (h : hashes S w ims = some hs) :
-    ∃ ds : List Str, hs = ds.map S.hash ∧ SrcsOf w ims ds := by
-  induction ims generalizing hs with
-  | nil => simp [hashes] at h; subst h; exact ⟨[], rfl, SrcsOf.nil⟩
-  | cons d ims ih =>
-    unfold hashes at h
-    split at h
-    · rename_i f hs' hf hh
-      cases h
-      obtain ⟨ds, rfl, hfa⟩ := ih hh
-      exact ⟨f.data :: ds, rfl, SrcsOf.cons f hf rfl hfa⟩
-    · simp at h
-
-theorem filterMap_locViews {S : Sem} {loc : Str → Str → Str} {w : World} {ims ds : List Str}
-    (h : SrcsOf w ims ds) :
-    ims.filterMap (fun d => (w.srcs.get? d).map (fun sd => loc d (S.parse sd.data))) = locViews S loc ims ds := by
-  induction h with
-  | nil => rfl
-  | cons f hf hd _ ih =>
-    subst hd
-    simp only [List.filterMap_cons, hf, Option.map_some, locViews, List.zipWith_cons_cons]
-    exact congrArg _ ih
-
-theorem identL_args {S : Sem} (H : Hyp S) {ds ds' : List Str} {own own' : Str}
-    (h : S.identL (ds.map S.hash ++ [S.hash own]) = S.identL (ds'.map S.hash ++ [S.hash own'])) : ds = ds' ∧ own = own' := by
-  have h1 := H.identL_inj _ _ h
-  have hlen : (ds.map S.hash).length = (ds'.map S.hash).length := by
-    have := congrArg List.length h1
-    simp at this; simpa using this
-  obtain ⟨h2, h3⟩ := List.append_inj h1 hlen
-  refine ⟨?_, H.hash_inj _ _ (by simpa using h3)⟩
-  exact map_inj S.hash H.hash_inj _ _ h2
-
-end Tranp.CacheFS
-
-namespace Tranp.CacheFS
-open Tranp
-
-/-- every table of the session's db is the cache-free one -/
-def DbOK (S : Sem) (loc : Str → Str → Str) (w0 : World) (s : Sess) : Prop :=
-  ∀ k t, (k, t) ∈ s.db → (∃ sf, w0.srcs.get? k = some sf) ∧ t = pureTable S loc w0 k
+/-- every table of the session's db is the cache-free one, and its module's identity is cached -/
+def DbOK (S : Sem) (w0 : World) (s : Sess) : Prop :=
+  ∀ k t, (k, t) ∈ s.db → IsTab S w0.srcs k t ∧ ∃ i, List.lookup k s.ids = some i
 
 /-- session invariant for the symbol layer; the symbol part holds as long as no analysis ran inside an import cycle -/
-def SS (S : Sem) (loc : Str → Str → Str) (w0 : World) (s : Sess) : Prop :=
-  TS S w0 s ∧ (s.cyc = false → SInv S loc s.w ∧ DbOK S loc w0 s)
+def SS (S : Sem) (w0 : World) (s : Sess) : Prop :=
+  TS S w0 s ∧ (s.cyc = false → SInv S s.w ∧ IdsOK S w0 s ∧ DbOK S w0 s)
 
-theorem SInv_evict {S : Sem} {loc : Str → Str → Str} {s : Sess} (h : SInv S loc s.w) (ps : List Str) : SInv S loc (s.evict ps).w := by
+theorem SInv_evict {S : Sem} {s : Sess} (h : SInv S s.w) (ps : List Str) : SInv S (s.evict ps).w := by
   rw [Sess.evict_eq]; exact h.eraseAll ps
 
-theorem SInv_write {S : Sem} {loc : Str → Str → Str} {s : Sess} (h : SInv S loc s.w) (dir p data : Str)
-    (hput : ∀ w m c, SInv S loc w → SInv S loc { w with cache := w.cache.put p ⟨data, m⟩, clock := c }) :
-    SInv S loc (s.write dir p data).w := by
+theorem SInv_write {S : Sem} {s : Sess} (h : SInv S s.w) (dir p data : Str)
+    (hput : ∀ w m c, SInv S w → SInv S { w with cache := w.cache.put p ⟨data, m⟩, clock := c }) :
+    SInv S (s.write dir p data).w := by
   unfold Sess.write
   dsimp only
   split
   · exact hput _ _ _ h
   · exact h
 
-theorem cacheGet_SInv {S : Sem} {loc : Str → Str → Str} {s : Sess} (h : SInv S loc s.w) (dir key ident ext fresh : Str) (bin : Bool)
-    (hput : ∀ w m c, SInv S loc w → SInv S loc { w with cache := w.cache.put (cachePath key ident ext) ⟨fresh, m⟩, clock := c }) :
-    SInv S loc (cacheGet S s dir key ident ext fresh bin).1.w := by
+theorem cacheGet_SInv {S : Sem} {s : Sess} (h : SInv S s.w) (dir key ident ext fresh : Str) (bin : Bool)
+    (hput : ∀ w m c, SInv S w → SInv S { w with cache := w.cache.put (cachePath key ident ext) ⟨fresh, m⟩, clock := c }) :
+    SInv S (cacheGet S s dir key ident ext fresh bin).1.w := by
   unfold cacheGet
   split
   · exact h
@@ -761,62 +876,68 @@ theorem cacheGet_SInv {S : Sem} {loc : Str → Str → Str} {s : Sess} (h : SInv
 
 theorem parserKey_nodash : '-' ∉ parserKey := by decide
 
-theorem treeGet_sym {S : Sem} (H : Hyp S) {loc : Str → Str → Str} {s : Sess} (key : Str) (hk : ∀ f, s.w.srcs.get? key = some f → KeyOK key) :
-    (treeGet S s key).1.db = s.db ∧ (treeGet S s key).1.cyc = s.cyc ∧ (SInv S loc s.w → SInv S loc (treeGet S s key).1.w) := by
+theorem cacheGet_rest {S : Sem} {s : Sess} {dir key ident ext fresh : Str} {bin : Bool} :
+    (cacheGet S s dir key ident ext fresh bin).1.db = s.db ∧ (cacheGet S s dir key ident ext fresh bin).1.cyc = s.cyc ∧
+    (cacheGet S s dir key ident ext fresh bin).1.ids = s.ids ∧ (cacheGet S s dir key ident ext fresh bin).1.w.srcs = s.w.srcs := by
+  unfold cacheGet
+  split
+  · simp
+  · dsimp only
+    split
+    · split <;> simp [Sess.ev, Sess.fail]
+    · simp only [Sess.write, Sess.evict_eq, Sess.ev, Sess.fail, World.mkdirs]
+      split <;> simp
+
+theorem treeGet_sym {S : Sem} (H : Hyp S) {s : Sess} (key : Str) (hk : ∀ f, s.w.srcs.get? key = some f → KeyOK key) :
+    (treeGet S s key).1.db = s.db ∧ (treeGet S s key).1.cyc = s.cyc ∧ (treeGet S s key).1.ids = s.ids ∧
+      (SInv S s.w → SInv S (treeGet S s key).1.w) := by
   unfold treeGet
-  have hp : ∀ s : Sess, (cacheGet S s [] parserKey (S.parserIdent s.w.grammarMtime) binExt (S.parserBlob s.w.grammarMtime) true).1.db = s.db ∧
-      (cacheGet S s [] parserKey (S.parserIdent s.w.grammarMtime) binExt (S.parserBlob s.w.grammarMtime) true).1.cyc = s.cyc ∧
-      (SInv S loc s.w → SInv S loc (cacheGet S s [] parserKey (S.parserIdent s.w.grammarMtime) binExt (S.parserBlob s.w.grammarMtime) true).1.w) :=
-    fun s => ⟨cacheGet_trees.2.1, cacheGet_trees.2.2, fun h => cacheGet_SInv h _ _ _ _ _ _
-      (fun w m c hw => hw.put_other _ _ _ (fun k ident hi => symPath_ne_cachePath hi (H.parser_nodash _) binExt_nodash parserKey_nodash))⟩
   have h1 : ∃ s1 : Sess, (if s.parserUp then s else
       match cacheGet S s [] parserKey (S.parserIdent s.w.grammarMtime) binExt (S.parserBlob s.w.grammarMtime) true with
-      | (s', r) => if r.isSome then { s' with parserUp := true } else s') = s1 ∧ s1.db = s.db ∧ s1.cyc = s.cyc ∧ s1.w.srcs = s.w.srcs ∧
-        (SInv S loc s.w → SInv S loc s1.w) := by
+      | (s', r) => if r.isSome then { s' with parserUp := true } else s') = s1 ∧ s1.db = s.db ∧ s1.cyc = s.cyc ∧ s1.ids = s.ids ∧
+        s1.w.srcs = s.w.srcs ∧ (SInv S s.w → SInv S s1.w) := by
     split
-    · exact ⟨s, rfl, rfl, rfl, rfl, id⟩
-    · have := hp s
-      have hsr : (cacheGet S s [] parserKey (S.parserIdent s.w.grammarMtime) binExt (S.parserBlob s.w.grammarMtime) true).1.w.srcs = s.w.srcs := by
-        unfold cacheGet
-        split
-        · rfl
-        · dsimp only
-          split
-          · split <;> rfl
-          · simp only [Sess.write, Sess.evict_eq, Sess.ev, World.mkdirs]
-            split <;> rfl
-      generalize cacheGet S s [] parserKey (S.parserIdent s.w.grammarMtime) binExt (S.parserBlob s.w.grammarMtime) true = res at this hsr
+    · exact ⟨s, rfl, rfl, rfl, rfl, rfl, id⟩
+    · have hr := cacheGet_rest (S := S) (s := s) (dir := []) (key := parserKey) (ident := S.parserIdent s.w.grammarMtime) (ext := binExt)
+        (fresh := S.parserBlob s.w.grammarMtime) (bin := true)
+      have hsi : SInv S s.w → SInv S (cacheGet S s [] parserKey (S.parserIdent s.w.grammarMtime) binExt (S.parserBlob s.w.grammarMtime) true).1.w :=
+        fun h => cacheGet_SInv h _ _ _ _ _ _
+          (fun w m c hw => hw.put_other _ _ _ (fun k ident hi => symPath_ne_cachePath hi (H.parser_nodash _) binExt_nodash parserKey_nodash))
+      generalize cacheGet S s [] parserKey (S.parserIdent s.w.grammarMtime) binExt (S.parserBlob s.w.grammarMtime) true = res at hr hsi
       obtain ⟨s', r⟩ := res
-      dsimp only at this hsr ⊢
+      dsimp only at hr hsi ⊢
       split
-      · exact ⟨_, rfl, this.1, this.2.1, hsr, this.2.2⟩
-      · exact ⟨_, rfl, this.1, this.2.1, hsr, this.2.2⟩
-  obtain ⟨s1, he, hdb, hcyc, hsrcs, hsinv⟩ := h1
+      · exact ⟨_, rfl, hr.1, hr.2.1, hr.2.2.1, hr.2.2.2, hsi⟩
+      · exact ⟨_, rfl, hr.1, hr.2.1, hr.2.2.1, hr.2.2.2, hsi⟩
+  obtain ⟨s1, he, hdb, hcyc, hids, hsrcs, hsinv⟩ := h1
   dsimp only
   rw [he]
   split
-  · exact ⟨hdb, hcyc, hsinv⟩
+  · exact ⟨hdb, hcyc, hids, hsinv⟩
   · split
-    · exact ⟨hdb, hcyc, hsinv⟩
+    · exact ⟨hdb, hcyc, hids, hsinv⟩
     · rename_i src hsrc
       have hkey : KeyOK key := hk src (by rw [← hsrcs]; exact hsrc)
-      refine ⟨by rw [cacheGet_trees.2.1, hdb], by rw [cacheGet_trees.2.2, hcyc], fun h => cacheGet_SInv (hsinv h) _ _ _ _ _ _ ?_⟩
+      refine ⟨by rw [cacheGet_rest.1, hdb], by rw [cacheGet_rest.2.1, hcyc], by rw [cacheGet_rest.2.2.1, hids],
+        fun h => cacheGet_SInv (hsinv h) _ _ _ _ _ _ ?_⟩
       exact fun w m c hw => hw.put_other _ _ _ (fun k ident hi => symPath_ne_cachePath hi (H.tree_nodash _ _) jsonExt_nodash hkey.1)
 
-theorem treeGet_SS {S : Sem} (H : Hyp S) {loc : Str → Str → Str} {w0 : World} {s : Sess} (h : SS S loc w0 s) (key : Str) {s' : Sess} {r : Option Str}
+theorem treeGet_SS {S : Sem} (H : Hyp S) {w0 : World} {s : Sess} (h : SS S w0 s) (key : Str) {s' : Sess} {r : Option Str}
     (heq : treeGet S s key = (s', r)) :
-    SS S loc w0 s' ∧ ∀ tree, r = some tree → FreshTree S w0 key tree ∧
-      SS S loc w0 { s' with loaded := s'.loaded ++ [key], trees := s'.trees ++ [(key, tree)] } := by
+    SS S w0 s' ∧ ∀ tree, r = some tree → FreshTree S w0 key tree ∧
+      SS S w0 { s' with loaded := s'.loaded ++ [key], trees := s'.trees ++ [(key, tree)] } := by
   obtain ⟨hts, hsym⟩ := h
   obtain ⟨h1, h2⟩ := treeGet_TS H hts key heq
-  have h3 := treeGet_sym (loc := loc) H (s := s) key (fun f hf => hts.1.keys key f hf)
+  have h3 := treeGet_sym H (s := s) key (fun f hf => hts.1.keys key f hf)
   rw [heq] at h3
-  obtain ⟨hdb, hcyc, hsinv⟩ := h3
-  dsimp only at hdb hcyc hsinv
-  have hS : s'.cyc = false → SInv S loc s'.w ∧ DbOK S loc w0 s' := by
+  obtain ⟨hdb, hcyc, hids, hsinv⟩ := h3
+  dsimp only at hdb hcyc hids hsinv
+  have hS : s'.cyc = false → SInv S s'.w ∧ IdsOK S w0 s' ∧ DbOK S w0 s' := by
     intro hc
-    obtain ⟨a, b⟩ := hsym (by rw [← hcyc]; exact hc)
-    exact ⟨hsinv a, fun k t hkt => b k t (by rw [← hdb]; exact hkt)⟩
+    obtain ⟨a, b, c⟩ := hsym (by rw [← hcyc]; exact hc)
+    refine ⟨hsinv a, fun k i hki => b k i (by rw [← hids]; exact hki), fun k t hkt => ?_⟩
+    have := c k t (by rw [← hdb]; exact hkt)
+    rw [hids]; exact this
   exact ⟨⟨h1, hS⟩, fun tree hr => ⟨(h2 tree hr).1, (h2 tree hr).2, hS⟩⟩
 
 end Tranp.CacheFS
@@ -824,86 +945,141 @@ end Tranp.CacheFS
 namespace Tranp.CacheFS
 open Tranp
 
-theorem lookup_mem {α : Type} [BEq α] [LawfulBEq α] {β : Type} {k : α} {v : β} : ∀ {l : List (α × β)}, List.lookup k l = some v → (k, v) ∈ l
-  | [], h => by simp [List.lookup] at h
+theorem lookup_append_some {k v : Str} : ∀ {l l' : List (Str × Str)}, List.lookup k l = some v → List.lookup k (l ++ l') = some v
+  | [], _, h => by simp [List.lookup] at h
+  | (k', v') :: l, l', h => by
+    simp only [List.cons_append, List.lookup] at h ⊢
+    split
+    · rename_i hk; simp only [hk] at h; exact h
+    · rename_i hk; simp only [hk] at h; exact lookup_append_some h
+
+theorem lookup_append_none {k v : Str} : ∀ {l : List (Str × Str)}, List.lookup k l = none → List.lookup k (l ++ [(k, v)]) = some v
+  | [], _ => by simp [List.lookup]
   | (k', v') :: l, h => by
-    simp only [List.lookup] at h
-    split at h
-    · rename_i hk
-      have : k = k' := by simpa using hk
-      cases h; subst this; simp
-    · exact List.mem_cons_of_mem _ (lookup_mem h)
+    simp only [List.cons_append, List.lookup] at h ⊢
+    split
+    · rename_i hk; simp only [hk] at h; cases h
+    · rename_i hk; simp only [hk] at h; exact lookup_append_none h
 
-theorem view_pureTable {S : Sem} {loc : Str → Str → Str} (hD : DirectOnly S loc) {w0 : World} {d : Str} {sf : File}
-    (hsf : w0.srcs.get? d = some sf) : S.view (pureTable S loc w0 d) = loc d (S.parse sf.data) := by
-  simp only [pureTable, hsf]
-  exact hD _ _ _
-
-theorem viewsOf_pure {S : Sem} {loc : Str → Str → Str} (hD : DirectOnly S loc) {w0 : World} {s : Sess} (hdb : DbOK S loc w0 s)
-    (ims : List Str) (hall : ims.all (fun d => (List.lookup d s.db).isSome) = true) :
-    viewsOf S s.db ims = ims.filterMap (fun d => (w0.srcs.get? d).map (fun sd => loc d (S.parse sd.data))) := by
+theorem depIdentities_cached {S : Sem} {w0 : World} {s : Sess} (hdb : DbOK S w0 s) (hids : IdsOK S w0 s) (ims : List Str)
+    (hall : ims.all (fun d => (List.lookup d s.db).isSome) = true) :
+    ∃ is, depIdentities S s ims = (s, some is) ∧ IsIds S w0.srcs ims is := by
   induction ims with
-  | nil => rfl
+  | nil => exact ⟨[], rfl, IsIds.nil⟩
   | cons d ims ih =>
     simp only [List.all_cons, Bool.and_eq_true] at hall
-    obtain ⟨h1, h2⟩ := hall
-    have ih' := ih h2
-    unfold viewsOf at ih' ⊢
-    simp only [List.filterMap_cons]
+    obtain ⟨is, h1, h2⟩ := ih hall.2
     cases hl : List.lookup d s.db with
-    | none => simp [hl] at h1
+    | none => simp [hl] at hall
     | some t =>
-      obtain ⟨⟨sf, hsf⟩, ht⟩ := hdb d t (lookup_mem hl)
-      simp only [Option.map_some, hsf, ih', ht, view_pureTable hD hsf]
+      obtain ⟨_, i, hi⟩ := hdb d t (lookup_mem' hl)
+      refine ⟨i :: is, ?_, IsIds.cons (hids d i (lookup_mem' hi)) h2⟩
+      simp [depIdentities, depIdentity, hi, h1]
 
-theorem pureTable_eq {S : Sem} {loc : Str → Str → Str} {w0 : World} {key : Str} {sf : File} {ds : List Str}
-    (hsf : w0.srcs.get? key = some sf) (hds : SrcsOf w0 (S.importsOf (S.parse sf.data)) ds) :
-    pureTable S loc w0 key = S.analyse key (S.parse sf.data) (locViews S loc (S.importsOf (S.parse sf.data)) ds) := by
-  simp only [pureTable, hsf, filterMap_locViews hds]
+theorem viewsOf_isViews {S : Sem} {w0 : World} {s : Sess} (hdb : DbOK S w0 s) (ims : List Str)
+    (hall : ims.all (fun d => (List.lookup d s.db).isSome) = true) : IsViews S w0.srcs ims (viewsOf S s.db ims) := by
+  induction ims with
+  | nil => exact IsViews.nil
+  | cons d ims ih =>
+    simp only [List.all_cons, Bool.and_eq_true] at hall
+    cases hl : List.lookup d s.db with
+    | none => simp [hl] at hall
+    | some t =>
+      have := IsViews.cons (hdb d t (lookup_mem' hl)).1 (ih hall.2)
+      simpa [viewsOf, hl] using this
 
-theorem SrcsOf.congr {w w' : World} (h : w.srcs = w'.srcs) {ims ds : List Str} (hs : SrcsOf w ims ds) : SrcsOf w' ims ds := by
-  induction hs with
-  | nil => exact SrcsOf.nil
-  | cons f hf hd _ ih => exact SrcsOf.cons f (by rw [← h]; exact hf) hd ih
+/-- in an acyclic session `identityM` answers the closure-keyed identity and leaves it cached -/
+theorem identityM_ok {S : Sem} {w0 : World} {s : Sess} (hsrcs : s.w.srcs = w0.srcs) (hdb : DbOK S w0 s) (hids : IdsOK S w0 s)
+    (key : Str) (sf : File) (hsf : w0.srcs.get? key = some sf)
+    (hall : (S.importsOf (S.parse sf.data)).all (fun d => (List.lookup d s.db).isSome) = true) :
+    ∃ ids' ident, identityM S s key (S.parse sf.data) = ({ s with ids := ids' }, some ident) ∧ IsId S w0.srcs key ident ∧
+      List.lookup key ids' = some ident ∧ (∀ k i, List.lookup k s.ids = some i → List.lookup k ids' = some i) ∧
+      (∀ k i, (k, i) ∈ ids' → IsId S w0.srcs k i) := by
+  unfold identityM
+  cases hl : List.lookup key s.ids with
+  | some i =>
+    exact ⟨s.ids, i, rfl, hids key i (lookup_mem' hl), hl, fun _ _ h => h, hids⟩
+  | none =>
+    dsimp only
+    rw [hsrcs, hsf]
+    obtain ⟨is, h1, h2⟩ := depIdentities_cached hdb hids _ hall
+    rw [h1]
+    dsimp only
+    have hI : IsId S w0.srcs key (S.identL (is ++ [S.hash sf.data])) := IsId.mk hsf h2
+    refine ⟨_, _, rfl, hI, lookup_append_none hl, fun _ _ h => lookup_append_some h, ?_⟩
+    intro k i hm
+    simp only [List.mem_append, List.mem_singleton, Prod.mk.injEq] at hm
+    rcases hm with hm | ⟨rfl, rfl⟩
+    · exact hids k i hm
+    · exact hI
 
-theorem preprocess_cyc {S : Sem} (s : Sess) (key tree : Str) (views : List Str) :
-    (preprocess S s key tree views).1.cyc = s.cyc ∧ (preprocess S s key tree views).1.db = s.db := by
-  unfold preprocess
+theorem preprocessWith_rest {S : Sem} (s : Sess) (key tree : Str) (views : List Str) (ident : Str) :
+    (preprocessWith S s key tree views ident).1.cyc = s.cyc ∧ (preprocessWith S s key tree views ident).1.db = s.db ∧
+      (preprocessWith S s key tree views ident).1.ids = s.ids := by
+  unfold preprocessWith
+  dsimp only
   split
-  · exact ⟨rfl, rfl⟩
-  · dsimp only
+  · split
+    · split <;> exact ⟨rfl, rfl, rfl⟩
+    · exact ⟨rfl, rfl, rfl⟩
+  · split
+    · exact ⟨rfl, rfl, rfl⟩
+    · simp only [Sess.write, Sess.evict_eq, Sess.ev, Sess.fail]
+      split <;> exact ⟨rfl, rfl, rfl⟩
+
+theorem preprocess_cyc {S : Sem} {H : Hyp S} {w0 : World} (s : Sess) (hts : TS S w0 s) (key tree : Str) (views : List Str) :
+    (preprocess S s key tree views).1.cyc = s.cyc := by
+  unfold preprocess
+  obtain ⟨ids', hf, _, _⟩ := identityM_frame H s key tree hts.2.2.2.2
+  generalize identityM S s key tree = ri at hf
+  obtain ⟨s1, o⟩ := ri
+  dsimp only at hf ⊢
+  subst hf
+  cases o with
+  | none => rfl
+  | some ident => exact (preprocessWith_rest _ key tree views ident).1
+
+/-- the persistor on a coherent cache: the world stays coherent and the returned table is the cache-free one -/
+theorem preprocessWith_sym {S : Sem} (H : Hyp S) {w0 : World} {s : Sess} (hsinv : SInv S s.w) (key : Str) (sf : File)
+    (views : List Str) (ident : Str) (hI : IsId S w0.srcs key ident) (hid : '-' ∉ ident)
+    (hT : IsTab S w0.srcs key (S.analyse key (S.parse sf.data) views)) :
+    SInv S (preprocessWith S s key (S.parse sf.data) views ident).1.w ∧
+      ∀ table, (preprocessWith S s key (S.parse sf.data) views ident).2 = some table → IsTab S w0.srcs key table := by
+  unfold preprocessWith
+  dsimp only
+  split
+  · rename_i f hf
     split
     · split
-      · split <;> exact ⟨rfl, rfl⟩
-      · exact ⟨rfl, rfl⟩
-    · split
-      · exact ⟨rfl, rfl⟩
-      · simp only [Sess.write, Sess.evict_eq, Sess.ev, Sess.fail]
-        split <;> exact ⟨rfl, rfl⟩
+      · rename_i hvalid
+        refine ⟨hsinv, fun table hr => ?_⟩
+        cases hr
+        obtain ⟨full, hp, hfv, hfull⟩ := hsinv key ident f hid hf
+        rw [prefix_valid_eq H hp hfv hvalid, hfull w0.srcs _ hI hT]
+        exact hT
+      · exact ⟨hsinv, fun _ h => by simp at h⟩
+    · exact ⟨hsinv, fun table hr => by cases hr; exact hT⟩
+  · split
+    · exact ⟨hsinv, fun table hr => by cases hr; exact hT⟩
+    · refine ⟨?_, fun table hr => ?_⟩
+      · exact SInv_write (SInv_evict hsinv _) _ _ _
+          (fun w m c hw => hw.put_sym H key ident _ m c hid (H.valid_analyse _ _ _) w0.srcs hI hT)
+      · split at hr
+        · simp at hr
+        · cases hr; exact hT
 
-theorem DbOK.add {S : Sem} {loc : Str → Str → Str} {w0 : World} {s s' : Sess} (h : DbOK S loc w0 s) (hdb : s'.db = s.db)
-    {key : Str} {sf : File} (hsf : w0.srcs.get? key = some sf) :
-    DbOK S loc w0 { s' with db := s'.db ++ [(key, pureTable S loc w0 key)] } := by
-  intro k t hkt
-  simp only [List.mem_append, List.mem_singleton, Prod.mk.injEq] at hkt
-  rcases hkt with hkt | ⟨rfl, rfl⟩
-  · exact h k t (by rw [← hdb]; exact hkt)
-  · exact ⟨⟨sf, hsf⟩, rfl⟩
-
-theorem preprocess_SS {S : Sem} (H : Hyp S) {loc : Str → Str → Str} (hD : DirectOnly S loc) {w0 : World} {s : Sess} (h : SS S loc w0 s)
+theorem preprocess_SS {S : Sem} (H : Hyp S) {w0 : World} {s : Sess} (h : SS S w0 s)
     (key tree : Str) (hF : FreshTree S w0 key tree)
     (hall : (S.importsOf tree).all (fun d => (List.lookup d s.db).isSome) = true ∨ s.cyc = true)
     {s' : Sess} {r : Option Str} (heq : preprocess S s key tree (viewsOf S s.db (S.importsOf tree)) = (s', r)) :
-    SS S loc w0 s' ∧ ∀ table, r = some table → SS S loc w0 { s' with db := s'.db ++ [(key, table)] } := by
+    SS S w0 s' ∧ ∀ table, r = some table → SS S w0 { s' with db := s'.db ++ [(key, table)] } := by
   obtain ⟨hts, hsym⟩ := h
   obtain ⟨hT1, hT2⟩ := preprocess_TS H hts key tree _ heq
-  have hcd := preprocess_cyc (S := S) s key tree (viewsOf S s.db (S.importsOf tree))
-  rw [heq] at hcd
-  obtain ⟨hcyc, hdbeq⟩ := hcd
-  dsimp only at hcyc hdbeq
+  have hcyc := preprocess_cyc (H := H) s hts key tree (viewsOf S s.db (S.importsOf tree))
+  rw [heq] at hcyc
+  dsimp only at hcyc
   by_cases hc : s.cyc = true
-  · -- an import cycle was seen: nothing is claimed about the symbol layer any more
-    have : s'.cyc = true := by rw [hcyc]; exact hc
+  · have : s'.cyc = true := by rw [hcyc]; exact hc
     exact ⟨⟨hT1, fun h' => by rw [this] at h'; cases h'⟩, fun table hr => ⟨hT2 table hr, fun h' => by
       have h'' : s'.cyc = false := h'
       rw [this] at h''; cases h''⟩⟩
@@ -912,80 +1088,55 @@ theorem preprocess_SS {S : Sem} (H : Hyp S) {loc : Str → Str → Str} (hD : Di
       rcases hall with h | h
       · exact h
       · exact absurd h hc
-    obtain ⟨hsinv, hdb⟩ := hsym hc'
+    obtain ⟨hsinv, hids, hdb⟩ := hsym hc'
     obtain ⟨sf, hsf, rfl⟩ := hF
-    have hsf' : s.w.srcs.get? key = some sf := by rw [hts.2.1]; exact hsf
-    have hviews := viewsOf_pure hD hdb _ hall'
-    -- the claim in terms of the world after `preprocess` and the returned table
-    suffices hmain : SInv S loc s'.w ∧ ∀ table, r = some table → table = pureTable S loc w0 key by
-      refine ⟨⟨hT1, fun _ => ⟨hmain.1, fun k t hkt => hdb k t (by rw [← hdbeq]; exact hkt)⟩⟩, fun table hr => ⟨hT2 table hr, fun _ => ⟨hmain.1, ?_⟩⟩⟩
-      rw [hmain.2 table hr]
-      exact hdb.add hdbeq hsf
+    obtain ⟨ids', ident, hid, hI, hlk, hmono, hids'⟩ := identityM_ok hts.2.1 hdb hids key sf hsf hall'
+    have hviews := viewsOf_isViews hdb _ hall'
+    have hT : IsTab S w0.srcs key (S.analyse key (S.parse sf.data) (viewsOf S s.db (S.importsOf (S.parse sf.data)))) := IsTab.mk hsf hviews
+    have hnd : '-' ∉ ident := by
+      obtain ⟨_, is, _, _, e⟩ := hI.inv
+      rw [e]; exact H.identL_nodash _
     unfold preprocess at heq
-    unfold identity at heq
-    rw [hsf'] at heq
-    cases hh : hashes S s.w (S.importsOf (S.parse sf.data)) with
-    | none =>
-      rw [hh] at heq
-      cases heq
-      exact ⟨hsinv, fun _ h => by simp at h⟩
-    | some hs =>
-      rw [hh] at heq
-      dsimp only at heq
-      obtain ⟨ds, rfl, hds⟩ := hashes_some hh
-      have hds0 : SrcsOf w0 (S.importsOf (S.parse sf.data)) ds := hds.congr hts.2.1
-      have hpure := pureTable_eq (S := S) (loc := loc) hsf hds0
-      have hfresh : S.analyse key (S.parse sf.data) (viewsOf S s.db (S.importsOf (S.parse sf.data))) = pureTable S loc w0 key := by
-        rw [hviews, hpure, filterMap_locViews hds0]
-      split at heq
-      · rename_i f hf
-        split at heq
-        · split at heq
-          · rename_i hvalid
-            cases heq
-            refine ⟨hsinv, fun table hr => ?_⟩
-            cases hr
-            obtain ⟨full, hp, hfv, hfull⟩ := hsinv key _ f (H.identL_nodash _) hf
-            rw [prefix_valid_eq H hp hfv hvalid, hfull sf.data ds rfl, hpure]
-          · cases heq
-            exact ⟨hsinv, fun _ h => by simp at h⟩
-        · cases heq
-          exact ⟨hsinv, fun table hr => by cases hr; exact hfresh⟩
-      · split at heq
-        · cases heq
-          exact ⟨hsinv, fun table hr => by cases hr; exact hfresh⟩
-        · cases heq
-          refine ⟨?_, fun table hr => ?_⟩
-          · refine SInv_write (SInv_evict hsinv _) _ _ _ (fun w m c hw => hw.put_sym H key _ _ m c (H.valid_analyse _ _ _) ?_)
-            intro own ds' hid
-            obtain ⟨rfl, rfl⟩ := identL_args H hid
-            rw [hfresh, hpure]
-          · split at hr
-            · simp at hr
-            · cases hr; exact hfresh
+    rw [hid] at heq
+    dsimp only at heq
+    have hm := preprocessWith_sym H (s := { s with ids := ids' }) hsinv key sf (viewsOf S s.db (S.importsOf (S.parse sf.data))) ident hI hnd hT
+    have hrest := preprocessWith_rest (S := S) { s with ids := ids' } key (S.parse sf.data) (viewsOf S s.db (S.importsOf (S.parse sf.data))) ident
+    rw [heq] at hm hrest
+    dsimp only at hm hrest
+    obtain ⟨_, hdbeq, hidseq⟩ := hrest
+    have hIds' : IdsOK S w0 s' := fun k i hki => hids' k i (by rw [← hidseq]; exact hki)
+    have hDb' : DbOK S w0 s' := by
+      intro k t hkt
+      obtain ⟨a, i, hi⟩ := hdb k t (by rw [← hdbeq]; exact hkt)
+      exact ⟨a, i, by rw [hidseq]; exact hmono k i hi⟩
+    refine ⟨⟨hT1, fun _ => ⟨hm.1, hIds', hDb'⟩⟩, fun table hr => ⟨hT2 table hr, fun _ => ⟨hm.1, hIds', ?_⟩⟩⟩
+    intro k t hkt
+    simp only [List.mem_append, List.mem_singleton, Prod.mk.injEq] at hkt
+    rcases hkt with hkt | ⟨rfl, rfl⟩
+    · exact hDb' k t hkt
+    · exact ⟨hm.2 t hr, ident, by rw [hidseq]; exact hlk⟩
 
 end Tranp.CacheFS
 
 namespace Tranp.CacheFS
 open Tranp
 
-theorem loadMod_SS {S : Sem} (H : Hyp S) {loc : Str → Str → Str} (hD : DirectOnly S loc) {w0 : World} (f : Nat) (s : Sess) (key : Str)
-    (h : SS S loc w0 s) : SS S loc w0 (loadMod S f s key) :=
-  loadMod_inv S (SS S loc w0) (FreshTree S w0)
+theorem loadMod_SS {S : Sem} (H : Hyp S) {w0 : World} (f : Nat) (s : Sess) (key : Str) (h : SS S w0 s) : SS S w0 (loadMod S f s key) :=
+  loadMod_inv S (SS S w0) (FreshTree S w0)
     (fun _ _ hs => hs)
     (fun _ key _ _ hs heq => treeGet_SS H hs key heq)
     (fun _ hs => ⟨hs.1, fun h => by cases h⟩)
-    (fun _ key tree _ _ hs hF hall heq => preprocess_SS H hD hs key tree hF hall heq)
+    (fun _ key tree _ _ hs hF hall heq => preprocess_SS H hs key tree hF hall heq)
     f s key h
 
-theorem runTargets_SS {S : Sem} (H : Hyp S) {loc : Str → Str → Str} (hD : DirectOnly S loc) {w0 : World} (targets : List Str) (s : Sess)
-    (h : SS S loc w0 s) : SS S loc w0 (runTargets S s targets) := by
+theorem runTargets_SS {S : Sem} (H : Hyp S) {w0 : World} (targets : List Str) (s : Sess) (h : SS S w0 s) :
+    SS S w0 (runTargets S s targets) := by
   unfold runTargets
-  apply foldl_inv (SS S loc w0) _ _ _ _ h
+  apply foldl_inv (SS S w0) _ _ _ _ h
   intro s key hs
   split
   · exact hs
-  · have h1 := loadMod_SS H hD (fuelOf s.w) s key hs
+  · have h1 := loadMod_SS H (fuelOf s.w) s key hs
     dsimp only
     generalize loadMod S (fuelOf s.w) s key = s1 at h1
     split
@@ -996,12 +1147,12 @@ theorem runTargets_SS {S : Sem} (H : Hyp S) {loc : Str → Str → Str} (hD : Di
       · exact h1
 
 /-- world-level invariant of both JSON layers -/
-def WS (S : Sem) (loc : Str → Str → Str) (w : World) : Prop := TInv S w ∧ SInv S loc w
+def WS (S : Sem) (w : World) : Prop := TInv S w ∧ SInv S w
 
-theorem run_SS {S : Sem} (H : Hyp S) {loc : Str → Str → Str} (hD : DirectOnly S loc) (w : World) (force : Bool) (h : WS S loc w) :
-    SS S loc w (run S w force) := by
+theorem run_SS {S : Sem} (H : Hyp S) (w : World) (force : Bool) (h : WS S w) : SS S w (run S w force) := by
   unfold run
-  exact runTargets_SS H hD _ _ ⟨⟨h.1, rfl, rfl, fun _ _ hkt => by simp at hkt⟩, fun _ => ⟨h.2, fun _ _ hkt => by simp at hkt⟩⟩
+  exact runTargets_SS H _ _ ⟨⟨h.1, rfl, rfl, fun _ _ hkt => by simp at hkt, fun _ _ hki => by simp at hki⟩,
+    fun _ => ⟨h.2, fun _ _ hki => by simp at hki, fun _ _ hkt => by simp at hkt⟩⟩
 
 def OpAcyclic (S : Sem) (w : World) : Op → Prop
   | .run f => (run S w f).cyc = false
@@ -1012,12 +1163,12 @@ def Acyclic (S : Sem) : World → List Op → Prop
   | _, [] => True
   | w, op :: rest => OpAcyclic S w op ∧ Acyclic S (step S w op) rest
 
-theorem step_WS {S : Sem} (H : Hyp S) {loc : Str → Str → Str} (hD : DirectOnly S loc) (w : World) (op : Op) (hop : OpOK op)
-    (hac : OpAcyclic S w op) (h : WS S loc w) : WS S loc (step S w op) := by
+theorem step_WS {S : Sem} (H : Hyp S) (w : World) (op : Op) (hop : OpOK op) (hac : OpAcyclic S w op) (h : WS S w) :
+    WS S (step S w op) := by
   refine ⟨step_TInv H w op hop h.1, ?_⟩
   cases op with
   | edit k src => exact h.2
-  | run force => exact ((run_SS H hD w force h).2 hac).1
+  | run force => exact ((run_SS H w force h).2 hac).1
   | clear => intro k ident f _ hget; simp [step, World.clearCache, Dir.get?] at hget
   | delete p => exact h.2.erase p
   | trunc p k =>
@@ -1027,31 +1178,25 @@ theorem step_WS {S : Sem} (H : Hyp S) {loc : Str → Str → Str} (hD : DirectOn
     · exact h.2
   | enable b => exact h.2
 
-theorem exec_WS {S : Sem} (H : Hyp S) {loc : Str → Str → Str} (hD : DirectOnly S loc) (w : World) (hist : List Op)
-    (hok : ∀ op ∈ hist, OpOK op) (hac : Acyclic S w hist) (h : WS S loc w) : WS S loc (exec S w hist) := by
+theorem exec_WS {S : Sem} (H : Hyp S) (w : World) (hist : List Op) (hok : ∀ op ∈ hist, OpOK op) (hac : Acyclic S w hist)
+    (h : WS S w) : WS S (exec S w hist) := by
   induction hist generalizing w with
   | nil => exact h
   | cons op hist ih =>
-    exact ih (step S w op) (fun o ho => hok o (by simp [ho])) hac.2 (step_WS H hD w op (hok op (by simp)) hac.1 h)
+    exact ih (step S w op) (fun o ho => hok o (by simp [ho])) hac.2 (step_WS H w op (hok op (by simp)) hac.1 h)
 
-theorem WS.init {S : Sem} {loc : Str → Str → Str} (w : World) (hc : w.cache = []) (hs : w.srcs = []) : WS S loc w :=
+theorem WS.init {S : Sem} (w : World) (hc : w.cache = []) (hs : w.srcs = []) : WS S w :=
   ⟨TInv.init w hc hs, fun k ident f _ hf => by simp [hc, Dir.get?] at hf⟩
 
-end Tranp.CacheFS
+/-! ### caching disabled -/
 
-namespace Tranp.CacheFS
-open Tranp
-
-/-! ### caching disabled, with the store gate of the proposed repair -/
-
-/-- nothing below the cache directory was opened, created or unlinked, and the gates are closed -/
-def Quiet (c0 : Dir) (s : Sess) : Prop :=
-  s.log = [] ∧ s.w.cache = c0 ∧ s.w.enabled = false ∧ s.w.storeGated = true
+/-- nothing below the cache directory was opened, created or unlinked -/
+def Quiet (c0 : Dir) (s : Sess) : Prop := s.log = [] ∧ s.w.cache = c0 ∧ s.w.enabled = false
 
 theorem cacheGet_quiet {S : Sem} {c0 : Dir} {s : Sess} (h : Quiet c0 s) (dir key ident ext fresh : Str) (bin : Bool) :
     cacheGet S s dir key ident ext fresh bin = (s, some fresh) := by
   unfold cacheGet
-  simp [h.2.2.1]
+  simp [h.2.2]
 
 theorem treeGet_quiet {S : Sem} {c0 : Dir} {s : Sess} (h : Quiet c0 s) (key : Str) : Quiet c0 (treeGet S s key).1 := by
   unfold treeGet
@@ -1071,15 +1216,60 @@ theorem treeGet_quiet {S : Sem} {c0 : Dir} {s : Sess} (h : Quiet c0 s) (key : St
     · exact h1
     · rw [cacheGet_quiet h1]; exact h1
 
+theorem identityM_quiet {S : Sem} {c0 : Dir} (s : Sess) (key tree : Str) (h : Quiet c0 s) : Quiet c0 (identityM S s key tree).1 := by
+  have frame : ∀ (s : Sess) d, Quiet c0 s → Quiet c0 (depIdentity S s d).1 := by
+    intro s d hs
+    unfold depIdentity
+    split
+    · exact hs
+    · split
+      · split
+        · exact hs
+        · exact hs
+      · exact hs
+  have frames : ∀ (ds : List Str) (s : Sess), Quiet c0 s → Quiet c0 (depIdentities S s ds).1 := by
+    intro ds
+    induction ds with
+    | nil => intro s hs; exact hs
+    | cons d ds ih =>
+      intro s hs
+      unfold depIdentities
+      have h1 := frame s d hs
+      generalize depIdentity S s d = r at h1
+      obtain ⟨s1, o⟩ := r
+      cases o with
+      | none => exact h1
+      | some i =>
+        dsimp only at h1 ⊢
+        have h2 := ih s1 h1
+        generalize depIdentities S s1 ds = r2 at h2
+        obtain ⟨s2, o2⟩ := r2
+        cases o2 <;> exact h2
+  unfold identityM
+  split
+  · exact h
+  · split
+    · exact h
+    · have h2 := frames (S.importsOf tree) s h
+      generalize depIdentities S s (S.importsOf tree) = r at h2
+      obtain ⟨s1, o⟩ := r
+      cases o <;> exact h2
+
 theorem preprocess_quiet {S : Sem} {c0 : Dir} {s : Sess} (h : Quiet c0 s) (key tree : Str) (views : List Str) :
     Quiet c0 (preprocess S s key tree views).1 := by
   unfold preprocess
-  split
-  · exact h
-  · dsimp only
+  have h1 := identityM_quiet (S := S) s key tree h
+  generalize identityM S s key tree = r at h1
+  obtain ⟨s1, o⟩ := r
+  cases o with
+  | none => exact h1
+  | some ident =>
+    dsimp only at h1 ⊢
+    unfold preprocessWith
+    dsimp only
     split
-    · simp only [h.2.2.1, Bool.false_eq_true, ↓reduceIte]; exact h
-    · simp only [h.2.2.1, h.2.2.2, Bool.not_false, Bool.and_self, ↓reduceIte]; exact h
+    · simp only [h1.2.2, Bool.false_eq_true, ↓reduceIte]; exact h1
+    · simp only [h1.2.2, Bool.not_false, ↓reduceIte]; exact h1
 
 theorem loadMod_quiet {S : Sem} {c0 : Dir} (f : Nat) (s : Sess) (key : Str) (h : Quiet c0 s) : Quiet c0 (loadMod S f s key) :=
   loadMod_inv S (Quiet c0) (fun _ _ => True)
@@ -1095,10 +1285,9 @@ theorem loadMod_quiet {S : Sem} {c0 : Dir} (f : Nat) (s : Sess) (key : Str) (h :
       exact ⟨this, fun _ _ => this⟩)
     f s key h
 
-theorem run_quiet {S : Sem} (w : World) (force : Bool) (he : w.enabled = false) (hg : w.storeGated = true) :
-    Quiet w.cache (run S w force) := by
+theorem run_quiet {S : Sem} (w : World) (force : Bool) (he : w.enabled = false) : Quiet w.cache (run S w force) := by
   unfold run runTargets
-  apply foldl_inv (Quiet w.cache) _ _ _ _ ⟨rfl, rfl, he, hg⟩
+  apply foldl_inv (Quiet w.cache) _ _ _ _ ⟨rfl, rfl, he⟩
   intro s key hs
   split
   · exact hs
@@ -1110,6 +1299,11 @@ theorem run_quiet {S : Sem} (w : World) (force : Bool) (he : w.enabled = false) 
     · split
       · exact h1
       · exact h1
+
+end Tranp.CacheFS
+
+namespace Tranp.CacheFS
+open Tranp
 
 /-! ### the closure-keyed identity covers the symbols -/
 
